@@ -50,112 +50,7 @@ func runC18(c *core.Ctx, o Options) {
 	if f := c.Func("", "Conn.runReader"); f != nil {
 		scope = append(scope, f)
 	}
-	nTag := 0
-	for _, fn := range scope {
-		an.AllInstrs(fn, func(in ssa.Instruction) {
-			call, ok := in.(*ssa.Call)
-			if !ok {
-				return
-			}
-			cal := an.StaticCallee(&call.Call)
-			if cal == nil || cal.Pkg == nil || (cal.Pkg.Pkg.Path() != "bytes" && cal.Pkg.Pkg.Path() != "strings") {
-				return
-			}
-			ni, isSearch := searchFuncs[cal.Name()]
-			if !isSearch {
-				return
-			}
-			name := cal.Pkg.Pkg.Name() + "." + cal.Name()
-			if ni < 0 {
-				c.Ob("needle", fn.Name(), name+" on raw message bytes", call.Pos()).Unknown("function-based search: cannot infer what is matched")
-				return
-			}
-			ev := &an.SeqEval{}
-			needle := ev.Eval(call.Call.Args[ni]).Norm()
-			hay := an.Render(call.Call.Args[0])
-			shape := needle.String()
-			parts := splitConst(needle)
-			isTag := tagDerived(needle)
-			isEOM := shape == "'10='"
-			key := fmt.Sprintf("%s(%s, %s)", name, hay, shape)
-			switch {
-			case isTag:
-				nTag++
-				ob := c.Ob("needle", fn.Name(), key, call.Pos())
-				anchored := len(parts) == 3 && isByte(parts[0], 1) && parts[1].Atom != "" && isByte(parts[2], '=')
-				startForm := len(parts) == 2 && parts[0].Atom != "" && isByte(parts[1], '=')
-				switch cal.Name() {
-				case "Index":
-					if anchored {
-						ob.Ok("searched as SOH·tag·'='")
-					} else {
-						ob.Fail("the tag is searched as %s: without the leading SOH and the trailing '=' the match can lie inside another tag (1146= for 146=) or inside a value", shape)
-					}
-				case "HasPrefix":
-					if startForm && (isParam(call.Call.Args[0]) || isReadSegment(call.Call.Args[0])) {
-						ob.Ok("compared as tag·'=' with the start of a buffer that begins at a field boundary")
-					} else {
-						ob.Fail("start-of-buffer comparison with %s on %s: the needle must be tag·'=' and the buffer must begin at a field boundary", shape, hay)
-					}
-				case "Equal":
-					// Equal(buf[:len(needle)], needle) is the hand-written form of HasPrefix (its bounds are C11's concern)
-					okEq := false
-					if sl, ok := call.Call.Args[0].(*ssa.Slice); ok && startForm && (isParam(sl.X) || isReadSegment(sl.X)) {
-						lo := int64(0)
-						if sl.Low != nil {
-							lo, _ = an.ConstInt(sl.Low)
-						}
-						if lo == 0 && sl.High != nil && an.Render(sl.High) == "len("+an.Render(call.Call.Args[ni])+")" {
-							okEq = true
-						}
-					}
-					if okEq {
-						ob.Ok("compared as tag·'=' with the first len(needle) bytes of a buffer that begins at a field boundary")
-					} else {
-						ob.Fail("bytes.Equal with a tag-derived needle %s on %s: only Equal(buf[:len(needle)], needle) on a buffer that begins at a field boundary is a start-anchored comparison", shape, hay)
-					}
-				default:
-					ob.Fail("%s with a tag-derived needle %s: only an SOH-anchored Index or a start-of-buffer HasPrefix recognise a tag at a field boundary", name, shape)
-				}
-			case isEOM:
-				nTag++
-				ob := c.Ob("needle", fn.Name(), key, call.Pos())
-				// Equal(seg[0:3], "10=") or HasPrefix(seg, "10=")
-				okStart := false
-				if cal.Name() == "HasPrefix" && isReadSegment(call.Call.Args[0]) {
-					okStart = true
-				}
-				if cal.Name() == "Equal" {
-					if sl, ok := call.Call.Args[0].(*ssa.Slice); ok && isReadSegment(sl.X) {
-						lo, hi := int64(0), int64(-1)
-						if sl.Low != nil {
-							lo, _ = an.ConstInt(sl.Low)
-						}
-						if sl.High != nil {
-							hi, _ = an.ConstInt(sl.High)
-						}
-						okStart = lo == 0 && hi == 3
-					}
-				}
-				if okStart {
-					ob.Ok("the CheckSum tag is compared with the first three bytes of the segment that follows a delimiter")
-				} else {
-					ob.Fail("the end-of-message tag is matched with %s on %s: only a comparison with the start of the segment read up to the last delimiter recognises tag 10 at a field boundary (110=…, or a value containing 10=, would end the message early)", name, hay)
-				}
-			case shape == "'␁'":
-				c.Check(cal.Name() == "Index", "needle", fn.Name(), key, call.Pos(), "next delimiter", "the delimiter is located with "+name+": a value ends at the first delimiter after it")
-			default:
-				// data-derived or constant needles: the group separator and the '=' search are checked below
-				if cal.Name() == "Index" && (shape == "'='" || (fn.Name() == "splitGroup" && call.Call.Args[ni] == ssa.Value(fn.Params[1]))) {
-					return
-				}
-				if cal.Name() == "Equal" && strings.HasPrefix(shape, "⟨fix.CalcCheckSum(") {
-					return // comparison of the declared with the recomputed checksum (C03.V2), not a search
-				}
-				c.Ob("needle", fn.Name(), key, call.Pos()).Unknown("unclassified search on message bytes with needle %s", shape)
-			}
-		})
-	}
+	nTag := needleCensus(c, "needle", scope)
 	c.Check(nTag >= 6, "needle", "", "tag searches found", token.NoPos, fmt.Sprint(nTag), fmt.Sprintf("only %d tag-derived searches found; 6 were confirmed by reading", nTag))
 	// ---- the repeating-group separator
 	um := c.Func("fix/encoding", "state.unmarshal")
@@ -273,4 +168,115 @@ func isReadSegment(v ssa.Value) bool {
 	}
 	call, ok := ex.Tuple.(*ssa.Call)
 	return ok && an.CalleeIs(&call.Call, "bufio", "Reader.ReadBytes")
+}
+
+// needleCensus applies the needle-shape rule to every byte/string search call of the given functions; it returns the number of tag-derived searches.
+func needleCensus(c *core.Ctx, rule string, scope []*ssa.Function) int {
+	nTag := 0
+	for _, fn := range scope {
+		an.AllInstrs(fn, func(in ssa.Instruction) {
+			call, ok := in.(*ssa.Call)
+			if !ok {
+				return
+			}
+			cal := an.StaticCallee(&call.Call)
+			if cal == nil || cal.Pkg == nil || (cal.Pkg.Pkg.Path() != "bytes" && cal.Pkg.Pkg.Path() != "strings") {
+				return
+			}
+			ni, isSearch := searchFuncs[cal.Name()]
+			if !isSearch {
+				return
+			}
+			name := cal.Pkg.Pkg.Name() + "." + cal.Name()
+			if ni < 0 {
+				c.Ob(rule, fn.Name(), name+" on raw message bytes", call.Pos()).Unknown("function-based search: cannot infer what is matched")
+				return
+			}
+			ev := &an.SeqEval{}
+			needle := ev.Eval(call.Call.Args[ni]).Norm()
+			hay := an.Render(call.Call.Args[0])
+			shape := needle.String()
+			parts := splitConst(needle)
+			isTag := tagDerived(needle)
+			isEOM := shape == "'10='"
+			key := fmt.Sprintf("%s(%s, %s)", name, hay, shape)
+			switch {
+			case isTag:
+				nTag++
+				ob := c.Ob(rule, fn.Name(), key, call.Pos())
+				anchored := len(parts) == 3 && isByte(parts[0], 1) && parts[1].Atom != "" && isByte(parts[2], '=')
+				startForm := len(parts) == 2 && parts[0].Atom != "" && isByte(parts[1], '=')
+				switch cal.Name() {
+				case "Index":
+					if anchored {
+						ob.Ok("searched as SOH·tag·'='")
+					} else {
+						ob.Fail("the tag is searched as %s: without the leading SOH and the trailing '=' the match can lie inside another tag (1146= for 146=) or inside a value", shape)
+					}
+				case "HasPrefix":
+					if startForm && (isParam(call.Call.Args[0]) || isReadSegment(call.Call.Args[0])) {
+						ob.Ok("compared as tag·'=' with the start of a buffer that begins at a field boundary")
+					} else {
+						ob.Fail("start-of-buffer comparison with %s on %s: the needle must be tag·'=' and the buffer must begin at a field boundary", shape, hay)
+					}
+				case "Equal":
+					// Equal(buf[:len(needle)], needle) is the hand-written form of HasPrefix (its bounds are C11's concern)
+					okEq := false
+					if sl, ok := call.Call.Args[0].(*ssa.Slice); ok && startForm && (isParam(sl.X) || isReadSegment(sl.X)) {
+						lo := int64(0)
+						if sl.Low != nil {
+							lo, _ = an.ConstInt(sl.Low)
+						}
+						if lo == 0 && sl.High != nil && an.Render(sl.High) == "len("+an.Render(call.Call.Args[ni])+")" {
+							okEq = true
+						}
+					}
+					if okEq {
+						ob.Ok("compared as tag·'=' with the first len(needle) bytes of a buffer that begins at a field boundary")
+					} else {
+						ob.Fail("bytes.Equal with a tag-derived needle %s on %s: only Equal(buf[:len(needle)], needle) on a buffer that begins at a field boundary is a start-anchored comparison", shape, hay)
+					}
+				default:
+					ob.Fail("%s with a tag-derived needle %s: only an SOH-anchored Index or a start-of-buffer HasPrefix recognise a tag at a field boundary", name, shape)
+				}
+			case isEOM:
+				nTag++
+				ob := c.Ob(rule, fn.Name(), key, call.Pos())
+				// Equal(seg[0:3], "10=") or HasPrefix(seg, "10=")
+				okStart := false
+				if cal.Name() == "HasPrefix" && isReadSegment(call.Call.Args[0]) {
+					okStart = true
+				}
+				if cal.Name() == "Equal" {
+					if sl, ok := call.Call.Args[0].(*ssa.Slice); ok && isReadSegment(sl.X) {
+						lo, hi := int64(0), int64(-1)
+						if sl.Low != nil {
+							lo, _ = an.ConstInt(sl.Low)
+						}
+						if sl.High != nil {
+							hi, _ = an.ConstInt(sl.High)
+						}
+						okStart = lo == 0 && hi == 3
+					}
+				}
+				if okStart {
+					ob.Ok("the CheckSum tag is compared with the first three bytes of the segment that follows a delimiter")
+				} else {
+					ob.Fail("the end-of-message tag is matched with %s on %s: only a comparison with the start of the segment read up to the last delimiter recognises tag 10 at a field boundary (110=…, or a value containing 10=, would end the message early)", name, hay)
+				}
+			case shape == "'␁'":
+				c.Check(cal.Name() == "Index", rule, fn.Name(), key, call.Pos(), "next delimiter", "the delimiter is located with "+name+": a value ends at the first delimiter after it")
+			default:
+				// data-derived or constant needles: the group separator and the '=' search are checked below
+				if cal.Name() == "Index" && (shape == "'='" || (fn.Name() == "splitGroup" && call.Call.Args[ni] == ssa.Value(fn.Params[1]))) {
+					return
+				}
+				if cal.Name() == "Equal" && strings.HasPrefix(shape, "⟨fix.CalcCheckSum(") {
+					return // comparison of the declared with the recomputed checksum (C03.V2), not a search
+				}
+				c.Ob(rule, fn.Name(), key, call.Pos()).Unknown("unclassified search on message bytes with needle %s", shape)
+			}
+		})
+	}
+	return nTag
 }
